@@ -23,13 +23,33 @@ class C10(Prop):
     def gen(self, rng, i, tier):
         edges, shape = cc.gen_graph(rng, 4, 10 if tier == "quick" else 11)
         n_cl_bound = 60
-        return {"edges": edges, "max_size": rng.choice([0, 0, 2, 3, 4]), "shape": shape,
+        case = {"edges": edges, "max_size": rng.choice([0, 0, 2, 3, 4]), "shape": shape,
                 "draws": [rng.randrange(1 << 30) for _ in range(n_cl_bound)]}
+        if rng.random() < 0.5 and len(edges) >= 2:
+            # history: the SAME graph object was covered before, then rewired in place by double edge swaps that keep
+            # the vertex and edge counts (as the library's own rewiring does), and is covered again
+            prior = [tuple(e) for e in edges]
+            for _ in range(rng.randint(1, 4)):
+                (a, b), (c, d) = rng.sample(prior, 2)
+                if len({a, b, c, d}) == 4:
+                    present = {frozenset(e) for e in prior}
+                    if frozenset((a, d)) not in present and frozenset((c, b)) not in present:
+                        prior.remove((a, b)); prior.remove((c, d))
+                        prior += [(a, d), (c, b)]
+            case["prior_edges"] = [list(e) for e in prior]
+        return case
 
     def impl(self, case):
         import networkx as nx
         from gcmpy.covers import mpcc as mod
         G = nx.Graph()
+        if case.get("prior_edges"):
+            G.add_edges_from([tuple(e) for e in case["edges"]])       # fixes the node order
+            G.remove_edges_from(list(G.edges()))
+            G.add_edges_from([tuple(e) for e in case["prior_edges"]])
+            with patched(mod, "shuffle", lambda x: None):
+                mod.MPCC(G, case["max_size"])
+            G.remove_edges_from(list(G.edges()))
         G.add_edges_from([tuple(e) for e in case["edges"]])
         before_nodes = list(G.nodes())
         before_edges = sorted(tuple(sorted(e)) for e in G.edges())
@@ -124,6 +144,8 @@ class C10(Prop):
     def stats(self, case, obs, hist):
         hist["shape_" + case["shape"]] = hist.get("shape_" + case["shape"], 0) + 1
         hist["limit_" + str(case["max_size"])] = hist.get("limit_" + str(case["max_size"]), 0) + 1
+        if case.get("prior_edges"):
+            hist["covered_again_after_in_place_rewiring"] = hist.get("covered_again_after_in_place_rewiring", 0) + 1
         if "exc" not in obs and obs.get("L"):
             hist["cliques_enumerated"] = hist.get("cliques_enumerated", 0) + len(obs["L"])
 
